@@ -102,6 +102,16 @@ pub const SITES: &[&str] = &[
     "harness.dtor",
     // inside the retain() predicate (the pool holds its lock there)
     "harness.pred",
+    // deadpool-postgres statement cache and cache registry (cfg-gated shim lock types)
+    "pg.cache.pre_read",
+    "pg.cache.pre_write",
+    "pg.cache.post_unlock",
+    "pg.cache.size.load",
+    "pg.cache.size.store",
+    "pg.cache.size.sub",
+    "pg.cache.size.add",
+    "pg.caches.pre_lock",
+    "pg.caches.post_unlock",
 ];
 
 /// Sites that lie inside a lock region of the code under test.
